@@ -104,6 +104,9 @@ def json_candidates(fmt, doc):
                     borrowed = sorted(set(p["variants"][g]["arches"]) - set(p["variants"][par]["arches"]))
                     if borrowed:
                         out.append((var + ["arches"], sorted(set(v["arches"]) | {borrowed[0]})))      # arch of the grandparent the parent lacks
+            for par in parents:
+                if "src" not in p["variants"][par]["arches"] and "src" not in v["arches"]:
+                    out.append((var + ["arches"], sorted(set(v["arches"]) | {"src"})))      # the pseudo-arch every variant matches is not an arch every variant has
             out.append((var + ["arches"], sorted(set(v["arches"]) | {"s390x-not-in-parent"})) if "-" in uid and any(
                 uid.startswith(u + "-") and uid[len(u) + 1:] in p["variants"][u].get("variants", []) for u in p["variants"]) else (var + ["type"], "addon-x"))
             if "release" in v:
